@@ -172,10 +172,14 @@ U_Siblings == U_Dec({U_Map2(x, y) : x \in U_SibX, y \in U_SibY}, {U_None, U_D(Pr
               \cup {U_Map1(U_KA, U_Apply(U_Map2(x, y), d)) : x \in U_SibX, y \in U_SibY,
                                                             d \in {U_D(PrNone, "F", "N", "N", {}), U_D(PrNone, "T", "N", "N", U_Md)}}
 
-\* thorough: every decoration on X and Z under a plain and an encoded root;
-\* flag pairs on all three levels
-U_AllXZ == U_Chain({U_None}, U_DAll, U_DSingles \cup U_DPairs, {"dict", "list"}, {U_I("1"), U_EList}, {U_I("1"), U_Null, U_EList, U_EMap})
-U_Pairs3 == U_Chain(U_DPairs \cup {U_None}, U_DPairs \cup {U_None}, U_DPairs \cup {U_None}, {"dict", "list", "call"}, {U_I("1"), U_EList, U_Map1(U_KA, U_I("1"))}, U_XLeafSmall)
+\* thorough: every combination of flags + metadata on X (plain root) and on Z
+\* (below each representative parent); flag pairs on X and Z
+U_AllX  == U_Chain({U_None}, U_DAll, {U_None}, {"dict", "list"}, {U_I("1"), U_EList}, {U_I("1"), U_Null, U_EList, U_EMap})
+U_AllZd == U_Chain({U_None}, U_DParents, U_DAll, {"dict"}, {U_I("1")}, {})
+U_AllZl == U_Chain({U_None}, U_DParents, U_DAll, {"list"}, {U_I("1")}, {})
+U_AllZe == U_Chain({U_None}, U_DParents, U_DAll, {"dict"}, {U_EList}, {})
+U_Pairs2 == U_Chain({U_None, U_D(PrNone, "T", "N", "N", U_Md)}, U_DPairs, U_DPairs, {"dict", "list"}, {U_I("1"), U_EList}, {U_EList})
+U_TKinds == U_KindsOf({U_I("1"), U_Null, U_EList, U_Map1(U_KA, U_I("1"))}, U_DZKind, U_DKind, U_DKindQ, U_DKindP)
 
 ----------------------------------------------------------------------------
 \* context documents (what a target is merged with): values at key a
@@ -226,7 +230,8 @@ U_CtxQ == ({U_Map1(U_KA, w) : w \in U_CtxQA}
                  U_Map1(U_KA, U_Prev(<<U_KA, U_KA>>)), U_Map1(U_KA, U_Prev(<<U_KA, IKey(0)>>))}) \ U_CtxSmallQ
 
 U_Quick    == U_QFocusPr \cup U_QFocusDel \cup U_QFocusNew \cup U_QFocusSafe \cup U_QKinds \cup U_QSiblings
-U_Thorough == U_Quick \cup U_FocusPr \cup U_FocusDel \cup U_FocusNew \cup U_FocusSafe \cup U_Kinds \cup U_AllXZ \cup U_Pairs3
+U_Thorough == U_Quick \cup U_FocusPr \cup U_FocusDel \cup U_FocusNew \cup U_FocusSafe \cup U_TKinds \cup U_Siblings
+              \cup U_AllX \cup U_AllZd \cup U_AllZl \cup U_AllZe \cup U_Pairs2
 \* narrow universes for the mutation cfgs
 U_MutDel   == U_Chain({U_None, U_D(PrNone, "T", "N", "N", U_Md), U_D(PrNone, "F", "N", "N", U_Md)}, U_DDel, U_DDelZ, {"dict", "list"},
                       {U_I("1"), U_EList, U_List(<<U_I("1")>>), U_List(<<U_List(<<U_I("1")>>)>>)}, {U_EList, U_EMap})
